@@ -439,7 +439,7 @@ PROPS = {
         level_note="Side condition checked syntactically on the tree: the key field is written only inside the three toggle functions, piece sets only inside put/remove. H1 is per draw by nature (each check run sees a fresh draw, the build script runs inside the Kani build). Trusted: Kani/CBMC/CaDiCaL.",
     ),
     "C01": dict(
-        title="Generated moves are exactly the legal moves of chess", jobs=16, jobs_thorough=6, mem_gb=14, timeout_thorough=4500,
+        title="Generated moves are exactly the legal moves of chess", jobs=16, jobs_thorough=4, mem_gb=14, timeout_thorough=4500,
         technique=TECH + "; compositional: per-stage contracts against independent reference rules + a wiring lemma with all stages stubbed",
         level_text="Bounded model checking, compositional. The whole generator cannot be symbolically executed (measured), so each stage of generate_valid_moves is checked on fully symbolic boards against independent reference rules (en passant, castling conditions, pawn pushes/captures/promotions, leaper tables, slider stage, target expansion, legality filter per move kind), and two wiring lemmas on the real generate_valid_moves / generate_pawn_moves with every stage stubbed show the stages are composed as the argument assumes. The attack map is an arbitrary bitboard in the castle and filter stages; its exactness is discharged by the A1 lemmas and C11.",
         level_note="Never runs two real stages back to back: 'each stage meets its contract' and 'the stages are wired as shown' => 'output is the legal set' is a propositional step. SmallVec's heap-spill path is cut (a spill inside a harness is a reported failure). Boards with >16 pieces or >8 pawns per side are outside the claim. Trusted: Kani/CBMC/CaDiCaL, reference rules.",
